@@ -1,7 +1,7 @@
 #!/bin/bash
 # usage: tools/round6.sh <Cxx> <k> <new-id> [props to check...]   (worktree /tmp/s6-Cxx)
 p=$1; k=$2; id=$3; shift 3
-wt=/tmp/s6-$p; sd=$wt/seed/$k
+wt=${SEEDWT:-/tmp/s7-}$p; sd=$wt/seed/$k
 crate=$(python3 -c "import json;print(json.load(open('$sd/meta.json'))['crate'])")
 filt=$(python3 -c "import json;print(json.load(open('$sd/meta.json')).get('demo_filter',''))")
 /verif/tools/confirm_seed.sh $wt $sd $id $crate -- $filt
